@@ -38,6 +38,10 @@ func ctxWalk(t *Term, inh string, ro bool, m map[int]string) {
 		}
 		ctxWalk(x, own, r, m)
 	}
+	// the payload of a panic raised by one of t's methods is printed in place, as an operand under t's declaration
+	for _, x := range t.Pan {
+		ctxWalk(x, own, false, m)
+	}
 }
 
 // DeclClass is the declared class ('S' visible / 'U' enveloped) of a rendering
@@ -52,7 +56,7 @@ func DeclClass(t *Term, role, cx string) byte {
 	if role == "typename" || role == "typefmt" || role == "ifacetype" || (t != nil && t.K == "nil") {
 		return 'S'
 	}
-	if t != nil && (t.K == "rstring" || t.K == "rbytes") {
+	if t != nil && (t.K == "rstring" || t.K == "rbytes") && role != "ptr" {
 		return 'S' // what a redactable shows outside its own envelopes
 	}
 	if role == "ret" && t != nil && t.K == "obj" && hasCap(t, "SM") && !hasCap(t, "SF") {
@@ -69,6 +73,7 @@ func AllTerms(ts []*Term, m map[int]*Term) map[int]*Term {
 	for _, t := range ts {
 		m[t.ID] = t
 		AllTerms(t.Xs, m)
+		AllTerms(t.Pan, m)
 	}
 	return m
 }
@@ -76,13 +81,26 @@ func AllTerms(ts []*Term, m map[int]*Term) map[int]*Term {
 // HasKind reports whether some operand subterm has one of the kinds.
 func HasKind(ts []*Term, kinds ...string) bool {
 	for _, t := range ts {
+		if t == nil {
+			continue
+		}
 		for _, k := range kinds {
 			if t.K == k {
 				return true
 			}
 		}
-		if HasKind(t.Xs, kinds...) {
+		if HasKind(t.Xs, kinds...) || HasKind(t.Pan, kinds...) {
 			return true
+		}
+		for _, op := range t.Scr {
+			if HasKind(op.Ts, kinds...) {
+				return true
+			}
+		}
+		for _, op := range t.FScr {
+			if HasKind(op.Ts, kinds...) {
+				return true
+			}
 		}
 	}
 	return false
